@@ -425,14 +425,21 @@ func c07Nested(rep *vk.Report, idx int) {
 // (a timer left armed would call it once the limit passes).
 func c07Outside(rep *vk.Report, idx int, r *rand.Rand, prop string) {
 	L := time.Duration(vk.Pick(r, 10, 20, 30)) * time.Millisecond
-	var calls atomic.Int64
+	var calls, timedOutApps atomic.Int64
 	T := timeout.Builder[int](L).OnTimeoutExceeded(func(failsafe.ExecutionDoneEvent[int]) { calls.Add(1) }).Build()
+	// the probe sits directly outside the Timeout and counts the applications that really ended in ErrExceeded (on a
+	// stalled machine the limit can pass before the outside cancellation is delivered: that is a regular timeout)
+	probe := &probePolicy{after: func(_ failsafe.Execution[int], _ any, res *common.PolicyResult[int]) {
+		if res.Error != nil && errors.Is(res.Error, timeout.ErrExceeded) {
+			timedOutApps.Add(1)
+		}
+	}}
 	ctx, cancel := context.WithCancel(context.Background())
 	defer cancel()
 	time.AfterFunc(L/10, cancel)
-	pols := []failsafe.Policy[int]{T}
+	pols := []failsafe.Policy[int]{probe, T}
 	if r.IntN(2) == 0 {
-		pols = []failsafe.Policy[int]{retrypolicy.Builder[int]().WithMaxRetries(1).Build(), T}
+		pols = []failsafe.Policy[int]{retrypolicy.Builder[int]().WithMaxRetries(1).Build(), probe, T}
 	}
 	fn := func(e failsafe.Execution[int]) (int, error) {
 		<-e.Canceled()
@@ -446,16 +453,20 @@ func c07Outside(rep *vk.Report, idx int, r *rand.Rand, prop string) {
 	}
 	time.Sleep(L + 30*time.Millisecond)
 	rep.Eval()
-	if !errors.Is(err, context.Canceled) || calls.Load() != 0 {
+	if calls.Load() != timedOutApps.Load() {
 		sig := prop + "/listener-called-without-timeout"
 		if prop == "C19" {
 			sig = "C19/timeout-timer-left-armed"
 		}
-		rep.Violate(idx, sig, fmt.Sprintf("Timeout (limit %v) cancelled from outside after %v: result %v, OnTimeoutExceeded called %d times %v after the execution finished (want 0)", L, L/10, err, calls.Load(), L+30*time.Millisecond), map[string]any{"limit_ns": int64(L)})
+		rep.Violate(idx, sig, fmt.Sprintf("Timeout (limit %v) cancelled from outside after %v: result %v, %d applications of the Timeout returned ErrExceeded but OnTimeoutExceeded was called %d times by %v after the execution finished", L, L/10, err, timedOutApps.Load(), calls.Load(), L+30*time.Millisecond), map[string]any{"limit_ns": int64(L)})
 		return
 	}
-	rep.Count("outside_cancellation_scenarios", 1)
-	rep.Distinct(fmt.Sprintf("outside|%d|%d", L, len(pols)))
+	if timedOutApps.Load() == 0 {
+		rep.Count("outside_cancellation_scenarios", 1)
+		rep.Distinct(fmt.Sprintf("outside|%d|%d", L, len(pols)))
+	} else {
+		rep.Count("outside_cancellation_scenarios_stalled_into_regular_timeout", 1)
+	}
 }
 
 // c07HedgeRetry: Hedge(Retry(Timeout(fn))): the limit applies afresh to each attempt of the retry policy also inside a
